@@ -51,3 +51,27 @@ let run () =
       diverge (Printf.sprintf "leak handler calls: model [%s] observed [%s]" (String.concat "," (List.map string_of_int model)) (String.concat "," (List.map string_of_int !observed))) "destroy"
   end;
   Printf.printf "SUMMARY ops=%d diverged=%d reports=%d\n" !nops !bad (List.length !observed)
+
+(* process-wide checker of the stateless low-level allocators: one line per child process
+   "g <fence_on 0|1> <nalloc> <nrel> <size> observed=[..]"; the reports must be those of Leak.gl_run *)
+let run_global () =
+  let bad = ref 0 and n = ref 0 in
+  (try
+     while true do
+       let line = input_line stdin in
+       match split_ws line with
+       | "g" :: fence :: nalloc :: nrel :: size :: obs :: _ ->
+         incr n;
+         let fence = fence = "1" and nalloc = int_of_string nalloc and nrel = int_of_string nrel and size = int_of_string size in
+         let observed = parse_list (String.sub obs 9 (String.length obs - 9)) in
+         let act i = ll_actual fence (z_of_int 16) (z_of_int (size + i)) in
+         let ops = [GCounterCtor; GCounterCtor]
+                   @ List.init nalloc (fun i -> GAllocd (act i))
+                   @ List.init (min nrel nalloc) (fun i -> GDeallocd (act i))
+                   @ [GCounterDtor; GCounterDtor] in
+         let model = List.map int_of_z (gl_run ops).g_reports in
+         if model <> observed then (incr bad; Printf.printf "DIVERGE model reports [%s] :: %s\n" (String.concat "," (List.map string_of_int model)) line)
+       | _ -> ()
+     done
+   with End_of_file -> ());
+  Printf.printf "SUMMARY processes=%d diverged=%d\n" !n !bad
